@@ -212,7 +212,8 @@ class Analysis:
     """Runs the fixpoint for one body; afterwards `state_at_term[bi]` is the state just before block bi's terminator."""
 
     def __init__(self, body, program, facts, len_alias=None, max_rounds=60, engine=None, invariants=None, assume=None):
-        self.assume = assume or {}      # argument local -> constant value assumed at entry (bounded instantiation)
+        self.assume = assume or {}      # argument local (or "upvar:<name>" of a closure) -> constant value assumed at entry (bounded instantiation)
+        self.is_closure = bool(facts is not None and facts.heads.get(body.path, {}).get("bkind") == "closure")
         self.engine = engine
         self.inv = invariants or {}
         self.b = body
@@ -324,7 +325,8 @@ class Analysis:
         has_deref = any(e[0] == "*" for e in place_proj(rp))
         if has_deref and pair is None:
             # `*x` for x: &usize is frozen while borrowed; through `&mut` / raw pointers it is not tracked
-            if not _is_shared_ref(self.b.locals[rp["l"]]):
+            if not _is_shared_ref(self.b.locals[rp["l"]]) and not (rp["l"] == 1 and self.is_closure):
+                # (the environment of a closure is reachable only through its own `_1` while its body runs)
                 return None
         pairs = {pair} if pair else set()
         unsigned = (ty in UNSIGNED) if ty else False
@@ -1910,7 +1912,14 @@ class Analysis:
                 name = self._register("_%d" % l, l, "_%d" % l, set(), True)
                 entry.add(ZERO, name, 0)
         for l, v in self.assume.items():
-            nm = self._register("_%d" % l, l, "_%d" % l, set(), b.locals[l] in UNSIGNED)
+            if isinstance(l, str) and l.startswith("upvar:"):
+                up = b._upvars.get(l[6:])
+                nm = self.term_of_place(up, None) if up is not None else None
+                if nm is None:
+                    self.gave_up = "assumed captured variable %s is not trackable" % l
+                    continue
+            else:
+                nm = self._register("_%d" % l, l, "_%d" % l, set(), b.locals[l] in UNSIGNED)
             entry.assign(nm, ZERO, v)
         self.inv_roots = self._inv_roots()
         own = self.P.direct.get(b.path, {}) if self.P is not None else {}
